@@ -122,6 +122,9 @@ class FileResolver:
             # Yield files matching include patterns (applying gitignore + tool ignore)
             for filename in filenames:
                 filepath = current / filename
+                if filepath.is_symlink():
+                    # Never reach a file through a symbolic link (it may point outside the tree).
+                    continue
                 if not self._include_spec.match_file(filename):
                     continue
                 if self._exceeds_max_size(filepath):
